@@ -76,6 +76,7 @@ def commands_of_tree(tree):
 
 class Prop(BaseProp):
     ID = "C05"
+    ANCHORS = ['cminx.documenter:Documenter.__init__', 'cminx.documenter:Documenter.process', 'cminx.parser.CMakeParser:CMakeParser.command_invocation', 'cminx.parser.CMakeParser:CMakeParser.compound_argument']
     LEVEL = "translation_validation"
     RULE = ("(1) generated files: probe(<args>) commands whose arguments are drawn from every argument form x special "
             "characters x valid escapes x bracket levels 0-3 with near-miss closers x nested parentheses x adjacent "
